@@ -19,6 +19,49 @@ Theorem C20_order_independent : forall fone fdiv fmul permit fp expd smax nlab r
 Proof. exact order_independent. Qed.
 Print Assumptions C20_order_independent.
 
+(* key tuples that are NOT pairwise distinct (V4 diffusion recordings: the keys cannot tell the
+   volumes apart).  The initial sort is stable - C20_stage1_stable: for every key tuple the records
+   carrying it keep their record order - and inside a key group volumes are numbered by counting
+   repeats in that order.  "The same volumes irrespective of record order" can therefore only mean:
+   irrespective of every reordering that keeps, for every key tuple, the subsequence of the records
+   with that tuple (for distinct tuples: every permutation, C20_order_independent).  For exactly
+   those reorderings the result is identical; C20_tied_keys_order_dependent shows that a reordering
+   which swaps two records with the same key tuple does change the image. *)
+Theorem C20_stage1_stable : forall recs k, filter (same_key k) (stage1 recs) = filter (same_key k) recs.
+Proof. exact stage1_stable. Qed.
+Print Assumptions C20_stage1_stable.
+
+Theorem C20_order_independent_stable : forall fone fdiv fmul permit fp expd smax nlab recs recs',
+  Permutation recs recs' -> (forall k, filter (same_key k) recs = filter (same_key k) recs') ->
+  res_obs (load fone fdiv fmul true permit fp expd smax nlab recs)
+  = res_obs (load fone fdiv fmul true permit fp expd smax nlab recs').
+Proof. exact order_independent_stable. Qed.
+Print Assumptions C20_order_independent_stable.
+
+Theorem C20_tied_keys_order_dependent :
+  exists recs recs', Permutation recs recs' /\
+    res_obs (load 1 Z.div Z.mul true false false [] 1 0 recs)
+    <> res_obs (load 1 Z.div Z.mul true false false [] 1 0 recs').
+Proof.
+  exists [mkRec [1;0] 1 7 0 0 0 [] []; mkRec [1;0] 1 8 0 0 0 [] []],
+         [mkRec [1;0] 1 8 0 0 0 [] []; mkRec [1;0] 1 7 0 0 0 [] []].
+  split; [apply perm_swap|vm_compute; discriminate].
+Qed.
+Print Assumptions C20_tied_keys_order_dependent.
+
+Example C20_stable_nonvacuous :
+  let a := mkRec [1;0] 1 7 0 0 0 [] [] in let b := mkRec [1;0] 1 8 0 0 0 [] [] in
+  let c := mkRec [1;5] 1 9 0 0 0 [] [] in
+  Permutation [a; b; c] [c; a; b] /\ (forall k, filter (same_key k) [a; b; c] = filter (same_key k) [c; a; b]) /\
+  res_obs (load 1 Z.div Z.mul true false false [] 1 0 [c; a; b]) = Ok (mkObs 1 3 [7; 8; 9] [0; 0; 0] [0; 0; 0] []).
+Proof.
+  cbv zeta. split; [|split; [|vm_compute; reflexivity]].
+  - apply Permutation_sym. apply (Permutation_cons_app [_; _] [] _). rewrite app_nil_r. reflexivity.
+  - intros k. unfold same_key. cbn [filter keys].
+    destruct (zl_eqb [1; 0] k) eqn:E1, (zl_eqb [1; 5] k) eqn:E2; try reflexivity.
+    exfalso. apply zl_eqb_iff in E1, E2. congruence.
+Qed.
+
 (* the same for strict_sort=False on the order-preserving permutations of the quantifier:
    every record keeps its volume number (= how often its slice number occurred before it) *)
 Theorem C20_lax_order_preserving : forall fone fdiv fmul permit fp expd smax nlab recs recs',
